@@ -54,7 +54,8 @@ func c11Select(items []string, reversed bool, off, lim *int) (sel []string, ok b
 	return sel, true
 }
 
-var c11Reprs = []string{"[]any", "[]int", "array", "range-literal", "range-vars"}
+// ("[]uint8": a typed slice of small numbers is an array like any other; only printing treats it as text)
+var c11Reprs = []string{"[]any", "[]int", "array", "range-literal", "range-vars", "[]uint8", "[]float32"}
 
 func c11Collection(repr string, n int) (expr string, bind map[string]any) {
 	bind = map[string]any{}
@@ -70,6 +71,20 @@ func c11Collection(repr string, n int) (expr string, bind map[string]any) {
 		a := make([]int, n)
 		for i := range a {
 			a[i] = 10 + i
+		}
+		bind["a"] = a
+		return "a", bind
+	case "[]uint8":
+		a := make([]uint8, n)
+		for i := range a {
+			a[i] = uint8(10 + i)
+		}
+		bind["a"] = a
+		return "a", bind
+	case "[]float32":
+		a := make([]float32, n)
+		for i := range a {
+			a[i] = float32(10 + i)
 		}
 		bind["a"] = a
 		return "a", bind
@@ -255,7 +270,7 @@ func c11Families(tier string) []explore.Family {
 		Run: func(i int64, r *explore.Rec) {
 			rx := radix{i}
 			sp, rp, bi, rev, li, oi, n := spellings[rx.next(len(spellings))], c11Reprs[rx.next(len(c11Reprs))], rx.next(len(bodies)), rx.next(2) == 1, rx.next(M), rx.next(M), rx.next(maxN+1)
-			if (rp == "range-literal" || rp == "range-vars" || rp == "array") && sp != "literal" {
+			if (rp == "range-literal" || rp == "range-vars" || rp == "array" || rp == "[]uint8" || rp == "[]float32") && sp != "literal" {
 				return // spelling variants are explored on the slice representations only
 			}
 			off, lim := mods[oi], mods[li]
